@@ -37,6 +37,7 @@ type Case struct {
 	State   bool   `json:"state"`   // StateRoutineContainer
 	Compare bool   `json:"compare"` // state container has an equality function
 	Retry   []int  `json:"retry"`   // scripted back-off in ms (-1 = Stop); empty = no retry
+	Disable string `json:"disable,omitempty"` // a later option switches retrying off again: "" | retrynil (WithRetry(nil)) | backoffnil (WithBackoff(nil))
 	Full    bool   `json:"full"`    // settle fully after every op (sequential history)
 	Ops     []Op   `json:"ops"`
 	Sched   []byte `json:"sched"`
@@ -66,6 +67,9 @@ func genCase(prop string) func(t *rapid.T) Case {
 			if prop != "C14" || rapid.IntRange(0, 3).Draw(t, "retry") != 0 {
 				c.Retry = rapid.SliceOfN(rapid.SampledFrom([]int{10, 10, 25, 50, -1}), 1, 4).Draw(t, "bo")
 			}
+		}
+		if len(c.Retry) > 0 && rapid.IntRange(0, 5).Draw(t, "disable") == 0 {
+			c.Disable = rapid.SampledFrom([]string{"retrynil", "backoffnil"}).Draw(t, "how")
 		}
 		if c.State {
 			kinds = append(kinds, "setstate", "setstate", "setstatefn", "swapstate")
@@ -189,8 +193,9 @@ func run(t *testing.T, cs Case) *ev.Verdict {
 	canon, _ := json.Marshal(struct {
 		S, C, F bool
 		R       []int
+		D       string
 		Ops     []Op
-	}{cs.State, cs.Compare, cs.Full, cs.Retry, cs.Ops})
+	}{cs.State, cs.Compare, cs.Full, cs.Retry, cs.Disable, cs.Ops})
 	v.Canon = string(canon)
 	c, berr := sched.Run(t, parkPoints, cs.Sched, func(c *sched.Ctl) { body(c, cs, v) })
 	v.Trace = c.Trace()
@@ -222,6 +227,9 @@ func body(c *sched.Ctl, cs Case, v *ev.Verdict) {
 	if len(cs.Retry) > 0 {
 		m.retry = cs.Retry
 		bo = &scriptBO{mu: &hm, durs: cs.Retry}
+		if cs.Disable != "" {
+			m.retry = nil // options apply in order: the later nil configuration disables retrying
+		}
 	}
 	// exit callbacks
 	var cbLog [2][]error
@@ -231,6 +239,12 @@ func body(c *sched.Ctl, cs Case, v *ev.Verdict) {
 	}
 	if bo != nil {
 		opts = append(opts, routine.WithBackoff(bo))
+		switch cs.Disable {
+		case "retrynil":
+			opts = append(opts, routine.WithRetry(nil))
+		case "backoffnil":
+			opts = append(opts, routine.WithBackoff(nil))
+		}
 	}
 	var rc *routine.RoutineContainer
 	var sc *routine.StateRoutineContainer[int]
